@@ -142,13 +142,13 @@ def make_cases(chk: Check) -> list[dict]:
     if thorough:
         # length 6 over two names (381 799 skeletons) and length <= 5 over three names: seeded samples
         six = [sk for sk in gen.enumerate_skeletons(6, 2, False) if len(sk) == 6]
-        for sk in rng.sample(six, 80000):
+        for sk in rng.sample(six, 50000):
             add(gen.assign_shapes(sk, rng), "llvm", rng.choice([None, "2"]), "sample-of-all-length6/2names")
         three = [sk for sk in gen.enumerate_skeletons(5, 3, False) if gen.mentions(sk, 2)]
-        for sk in rng.sample(three, 30000):
+        for sk in rng.sample(three, 15000):
             add(gen.assign_shapes(sk, rng), "llvm", rng.choice([None, "2"]), "sample-of-all-length<=5/3names")
     # rich random histories: 3 names, two-input evaluations, same-name rebinding, ill-formed operations
-    for _ in range(10000 if thorough else 2500):
+    for _ in range(6000 if thorough else 2500):
         add(gen.random_history(rng, rng.randint(4, 9), 3), "llvm", rng.choice([None, "2", "1"]), "random-rich")
     # the cffi back end: C compilation costs ~1 s per distinct kernel, so few distinct kernels
     cffi_len = 4 if thorough else 3
@@ -158,7 +158,7 @@ def make_cases(chk: Check) -> list[dict]:
             ops = gen.map_shapes(ops, {"s1": "s0", "e": "s0", "0": "d"})
         add(ops, "cffi", None, f"exhaustive<= {cffi_len}/2names/cffi")
     if thorough:
-        for _ in range(1500):
+        for _ in range(600):
             h = gen.random_history(rng, rng.randint(4, 8), 3)
             h = [op for op in h if not (op[0] == "eval" and len(op[2]) > 1)]
             if h and h[0][0] in ("eval", "build"):
@@ -172,8 +172,8 @@ def run(chk: Check):
     chk.rule = (
         "histories over {eval (no/one/two history inputs; output sparse 1 or 2 levels, empty sparse, dense, "
         "scalar), build, alias, structref (a name for the C structure), read, pickle round-trip, del, gc.collect}: "
-        "ALL well-formed histories up to length 5 over two names up to renaming (thorough: + 80 000 of the 381 799 of "
-        "length 6 and 30 000 of those of length <= 5 over three names), output shapes and "
+        "ALL well-formed histories up to length 5 over two names up to renaming (thorough: + 50 000 of the 381 799 of "
+        "length 6 and 15 000 of those of length <= 5 over three names), output shapes and "
         "initial array capacity (default / 2 / 1) drawn from the seed, + random histories of length 4-9 over three names "
         "including ill-formed operations, + the cffi back end on short histories; a case is distinct by "
         "(ops, back end, capacity) and non-trivial when at least one kernel-allocated array is tracked"
